@@ -20,6 +20,7 @@ type deferred struct {
 type fnInfo struct {
 	idx    map[ssa.Value]int
 	n      int
+	defBlk []*ssa.BasicBlock
 	ipdom  []int // immediate post-dominator block index per block, -1 = exit
 	hasPdo bool
 }
@@ -76,6 +77,7 @@ type State struct {
 	acc    []Access
 	aux    map[string]int // misc per-path counters
 	budget int
+	deadline int
 }
 
 type Access struct {
@@ -118,7 +120,15 @@ type Engine struct {
 	record    bool // access recording (C17)
 	asserts   map[string]*AssertStat
 	traceOn   bool
+	symPtrs   bool
+	prefix    []int
+	qprof     map[string]int
+	mergeOK   map[siteKey]int
+	mergeBad  map[siteKey]int
+	lastAbort string
+	absHashMod bool
 	overrides map[string]*ssa.Function
+	overrideGroup map[*ssa.Function]string
 	stubsUsed map[string]int
 	ndSeq     int
 }
@@ -140,12 +150,14 @@ func (e *Engine) info(fn *ssa.Function) *fnInfo {
 	for _, p := range fn.Params {
 		fi.idx[p] = fi.n
 		fi.n++
+		fi.defBlk = append(fi.defBlk, nil)
 	}
 	for _, b := range fn.Blocks {
 		for _, in := range b.Instrs {
 			if v, ok := in.(ssa.Value); ok {
 				fi.idx[v] = fi.n
 				fi.n++
+				fi.defBlk = append(fi.defBlk, b)
 			}
 		}
 	}
@@ -158,7 +170,7 @@ func (st *State) top() *Frame { return st.frames[len(st.frames)-1] }
 func (e *Engine) newEpoch() int { e.nextEpoch++; return e.nextEpoch }
 
 func (e *Engine) clone(st *State) *State {
-	n := &State{pc: append([]*Term(nil), st.pc...), steps: st.steps, nd: append([]ndVar(nil), st.nd...), budget: st.budget}
+	n := &State{pc: append([]*Term(nil), st.pc...), steps: st.steps, nd: append([]ndVar(nil), st.nd...), budget: st.budget, deadline: st.deadline}
 	n.known = make(map[int]bool, len(st.known))
 	for k := range st.known {
 		n.known[k] = true
@@ -405,6 +417,9 @@ func (e *Engine) unsupported(st *State, msg string) { e.end(st, "unsupported", m
 // ---------- decisions ----------
 
 func (e *Engine) feasible(st *State, c *Term) bool {
+	if e.qprof != nil {
+		e.qprof[e.site(st)+" :: "+c.Op]++
+	}
 	r := e.fast.Check(append(append(make([]*Term, 0, len(st.pc)+1), st.pc...), c))
 	e.fast.Pop()
 	return r != "unsat"
@@ -636,6 +651,26 @@ func (e *Engine) binop(st *State, op token.Token, xt types.Type, a, b Value) Val
 		if signed {
 			return BinBV("bvsrem", x, y)
 		}
+		if y.IsConst() && !x.IsConst() && e.absHashMod && hashDerived(x) && pureHashBits(x) && hiBound(x).BitLen() > 32 &&
+			new(big.Int).And(y.C, new(big.Int).Sub(y.C, big.NewInt(1))).Sign() != 0 {
+			// hash % c for a non-power-of-two c: the hash is uninterpreted, so its residue is an arbitrary
+			// function of the same input bounded by c. Small moduli are case-split at once.
+			r := UF("uremabs_"+y.C.String(), x.W, x)
+			bound := mk(&Term{Op: "bvult", W: 0, Args: []*Term{r, y}}) // raw: the folding layer already assumes it
+			if !st.known[bound.id] {
+				st.pc = append(st.pc, bound)
+				st.known[bound.id] = true
+			}
+			e.stubsUsed["abstraction: (uninterpreted hash) % "+y.C.String()]++
+			if y.C.IsInt64() && y.C.Int64() <= 4096 {
+				return BVu(e.concretize(st, r, "hash modulus"), x.W)
+			}
+			return r
+		}
+		if y.IsConst() && !x.IsConst() && e.absHashMod && hashDerived(x) && pureHashBits(x) && y.C.IsInt64() && y.C.Int64() <= 4096 {
+			// hash % 2^k (small): exact, but case-split at once so that indices derived from it are concrete
+			return BVu(e.concretize(st, DivNZ("bvurem", x, y), "hash modulus"), x.W)
+		}
 		return DivNZ("bvurem", x, y)
 	case token.AND:
 		return BinBV("bvand", x, y)
@@ -769,6 +804,9 @@ func (e *Engine) pushFrame(st *State, fn *ssa.Function, args []Value, env []Valu
 		e.unsupported(st, "call to function without body: "+fn.String())
 	}
 	if len(st.frames) > 400 {
+		if st.deadline > 0 {
+			e.end(st, "deadlock", "call did not return: recursion depth 400 exceeded (non-termination) in "+fn.String())
+		}
 		e.end(st, "unwind", "call depth exceeded in "+fn.String())
 	}
 	fi := e.info(fn)
@@ -807,6 +845,9 @@ func (e *Engine) step(st *State) {
 	e.stats.Steps++
 	if st.steps > e.maxSteps {
 		e.end(st, "unwind", fmt.Sprintf("step budget %d exhausted", e.maxSteps))
+	}
+	if st.deadline > 0 && st.steps > st.deadline {
+		e.end(st, "deadlock", "call did not return within its step bound (non-termination)")
 	}
 	if st.budget > 0 && st.steps > st.budget {
 		e.stats.Cut++
@@ -870,15 +911,20 @@ func (e *Engine) step(st *State) {
 		e.setReg(fr, x, Ptr{Obj: id})
 		fr.ip++
 	case *ssa.Store:
-		p := e.get(st, fr, x.Addr).(Ptr)
-		e.store(st, p, x.Val.Type(), e.get(st, fr, x.Val))
+		e.storeAny(st, e.get(st, fr, x.Addr), x.Val.Type(), e.get(st, fr, x.Val))
 		fr.ip++
 	case *ssa.FieldAddr:
-		p := e.get(st, fr, x.X).(Ptr)
+		s := x.X.Type().Underlying().(*types.Pointer).Elem().Underlying().(*types.Struct)
+		if sp, ok := e.get(st, fr, x.X).(SymPtr); ok {
+			sp.Off += fieldOff(s, x.Field)
+			e.setReg(fr, x, sp)
+			fr.ip++
+			return
+		}
+		p := e.ptrOf(st, e.get(st, fr, x.X))
 		if p.Obj == 0 {
 			e.goPanic(st, "nil pointer dereference (field address)")
 		}
-		s := x.X.Type().Underlying().(*types.Pointer).Elem().Underlying().(*types.Struct)
 		e.setReg(fr, x, Ptr{Obj: p.Obj, Off: p.Off + fieldOff(s, x.Field)})
 		fr.ip++
 	case *ssa.Field:
@@ -1004,8 +1050,7 @@ func (e *Engine) step(st *State) {
 func (e *Engine) unop(st *State, fr *Frame, x *ssa.UnOp) {
 	switch x.Op {
 	case token.MUL:
-		p := e.get(st, fr, x.X).(Ptr)
-		e.setReg(fr, x, e.load(st, p, x.Type()))
+		e.setReg(fr, x, e.loadAny(st, e.get(st, fr, x.X), x.Type()))
 	case token.NOT:
 		e.setReg(fr, x, Not(e.getTerm(st, fr, x.X)))
 	case token.SUB:
@@ -1044,6 +1089,9 @@ func (e *Engine) idxTerm(st *State, fr *Frame, v ssa.Value) *Term {
 func (e *Engine) indexAddr(st *State, fr *Frame, x *ssa.IndexAddr) {
 	base := e.get(st, fr, x.X)
 	idx := e.idxTerm(st, fr, x.Index)
+	if sp, ok := base.(SymPtr); ok {
+		base = e.ptrOf(st, sp)
+	}
 	switch b := base.(type) {
 	case Ptr: // *array
 		if b.Obj == 0 {
@@ -1051,10 +1099,18 @@ func (e *Engine) indexAddr(st *State, fr *Frame, x *ssa.IndexAddr) {
 		}
 		at := x.X.Type().Underlying().(*types.Pointer).Elem().Underlying().(*types.Array)
 		e.boundsCheck(st, idx, int(at.Len()), "array")
+		if ri := st.resolve(idx); !ri.IsConst() && e.symPtrs && int(at.Len()) <= 512 {
+			e.setReg(fr, x, SymPtr{Obj: b.Obj, Off: b.Off, Stride: sizeOf(at.Elem()), N: int(at.Len()), Idx: ri})
+			return
+		}
 		i := int(e.concretize(st, idx, "array index"))
 		e.setReg(fr, x, Ptr{Obj: b.Obj, Off: b.Off + i*sizeOf(at.Elem())})
 	case SliceV:
 		e.boundsCheck(st, idx, b.Len, "slice")
+		if ri := st.resolve(idx); !ri.IsConst() && e.symPtrs && b.Len <= 512 {
+			e.setReg(fr, x, SymPtr{Obj: b.Obj, Off: b.Off, Stride: b.Stride, N: b.Len, Idx: ri})
+			return
+		}
 		i := int(e.concretize(st, idx, "slice index"))
 		e.setReg(fr, x, Ptr{Obj: b.Obj, Off: b.Off + i*b.Stride})
 	default:
@@ -1124,6 +1180,9 @@ func (e *Engine) sliceOp(st *State, fr *Frame, x *ssa.Slice) {
 	}
 	if x.Max != nil {
 		max = int(e.concretize(st, e.idxTerm(st, fr, x.Max), "slice max"))
+	}
+	if sp, ok := base.(SymPtr); ok {
+		base = e.ptrOf(st, sp)
 	}
 	switch b := base.(type) {
 	case string:
@@ -1245,6 +1304,17 @@ func (e *Engine) ifOp(st *State, fr *Frame, x *ssa.If) {
 	case st.known[Not(c).id]:
 		takeTrue = false
 	default:
+		site := siteKey{fr.fn, fr.block.Index}
+		tryM := e.merge && (e.mergeOK[site] > 0 || e.mergeBad[site] < 3)
+		if tryM {
+			// merge first: both sides are executed under their branch condition, which is sound even if one side
+			// is infeasible, and saves the two feasibility queries
+			if e.tryMerge(st, fr, x, c) {
+				e.mergeOK[site]++
+				return
+			}
+			e.mergeBad[site]++
+		}
 		if !e.feasible(st, c) {
 			st.known[Not(c).id] = true
 			takeTrue = false
@@ -1252,9 +1322,6 @@ func (e *Engine) ifOp(st *State, fr *Frame, x *ssa.If) {
 			st.known[c.id] = true
 			takeTrue = true
 		} else {
-			if e.merge && e.tryMerge(st, fr, x, c) {
-				return
-			}
 			panic(forkReq{cond: c})
 		}
 	}
@@ -1335,4 +1402,109 @@ func (e *Engine) finish(st *State, o *Outcome) {
 		}
 	}
 	e.outcomes = append(e.outcomes, o)
+}
+
+// SymPtr addresses cell Off + Idx*Stride of object Obj for a symbolic in-range index Idx < N.
+type SymPtr struct {
+	Obj, Off, Stride, N int
+	Idx                 *Term
+}
+
+// ptrOf returns a concrete pointer, case-splitting a symbolic one over its feasible indices.
+func (e *Engine) ptrOf(st *State, v Value) Ptr {
+	switch p := v.(type) {
+	case Ptr:
+		return p
+	case SymPtr:
+		i := int(e.concretize(st, p.Idx, "symbolic pointer"))
+		return Ptr{Obj: p.Obj, Off: p.Off + i*p.Stride}
+	}
+	panic(fmt.Sprintf("expected pointer, got %T", v))
+}
+
+func (e *Engine) loadAny(st *State, pv Value, t types.Type) Value {
+	sp, ok := pv.(SymPtr)
+	if !ok {
+		return e.load(st, pv.(Ptr), t)
+	}
+	idx := st.resolve(sp.Idx)
+	if idx.IsConst() {
+		return e.load(st, Ptr{sp.Obj, sp.Off + int(idx.U64())*sp.Stride}, t)
+	}
+	n := sizeOf(t)
+	o := e.obj(st, sp.Obj)
+	out := make([]Value, n)
+	for c := 0; c < n; c++ {
+		var r *Term
+		for k := sp.N - 1; k >= 0; k-- {
+			cell, ok := o.cells[sp.Off+k*sp.Stride+c].(*Term)
+			if !ok || (r != nil && cell.W != r.W) {
+				return e.load(st, e.ptrOf(st, sp), t)
+			}
+			if r == nil {
+				r = cell
+			} else {
+				r = Ite(Cmp("=", idx, BVu(uint64(k), idx.W)), cell, r)
+			}
+		}
+		out[c] = r
+	}
+	if e.record {
+		e.logAccess(st, Ptr{sp.Obj, sp.Off}, sp.N*sp.Stride, false)
+	}
+	if isAgg(t) {
+		return Agg(out)
+	}
+	return out[0]
+}
+
+func (e *Engine) storeAny(st *State, pv Value, t types.Type, v Value) {
+	sp, ok := pv.(SymPtr)
+	if !ok {
+		e.store(st, pv.(Ptr), t, v)
+		return
+	}
+	idx := st.resolve(sp.Idx)
+	if idx.IsConst() {
+		e.store(st, Ptr{sp.Obj, sp.Off + int(idx.U64())*sp.Stride}, t, v)
+		return
+	}
+	n := sizeOf(t)
+	var vals []Value
+	if isAgg(t) {
+		vals = v.(Agg)
+	} else {
+		vals = []Value{v}
+	}
+	o := e.obj(st, sp.Obj)
+	for c := 0; c < n; c++ {
+		nv, ok := vals[c].(*Term)
+		if !ok {
+			e.store(st, e.ptrOf(st, sp), t, v)
+			return
+		}
+		for k := 0; k < sp.N; k++ {
+			cell, ok := o.cells[sp.Off+k*sp.Stride+c].(*Term)
+			if !ok || cell.W != nv.W {
+				e.store(st, e.ptrOf(st, sp), t, v)
+				return
+			}
+		}
+	}
+	ow := e.objW(st, sp.Obj)
+	for c := 0; c < n; c++ {
+		nv := vals[c].(*Term)
+		for k := 0; k < sp.N; k++ {
+			i := sp.Off + k*sp.Stride + c
+			ow.cells[i] = Ite(Cmp("=", idx, BVu(uint64(k), idx.W)), nv, ow.cells[i].(*Term))
+		}
+	}
+	if e.record {
+		e.logAccess(st, Ptr{sp.Obj, sp.Off}, sp.N*sp.Stride, true)
+	}
+}
+
+type siteKey struct {
+	fn  *ssa.Function
+	blk int
 }
